@@ -56,21 +56,21 @@ def schcOp (toks : List String) : Option String :=
     pure (showPy showABuf (compress p r))
   | "decompress" :: rest => do
     let (s, r) ← runP (do let s ← pABuf; let r ← pRule; pEnd; pure (s, r)) rest
-    pure (showPy showABuf (decompress s r))
+    pure (showPy showABuf (decompressG s r))
   | "dfields" :: rest => do
     let (s, r) ← runP (do let s ← pABuf; let r ← pRule; pEnd; pure (s, r)) rest
-    pure (showPy showPairs (decompressToFields s r))
+    pure (showPy showPairs (decompressToFieldsG s r))
   | "roundtrip" :: rest => do
     let (p, r) ← runP (do let p ← pPacket; let r ← pRule; pEnd; pure (p, r)) rest
-    pure (showPy (fun (c, d) => s!"{showABuf c} {showABuf d}") (do let c ← compress p r; let d ← decompress c r; pure (c, d)))
+    pure (showPy (fun (c, d) => s!"{showABuf c} {showABuf d}") (do let c ← compress p r; let d ← decompressG c r; pure (c, d)))
   | "droundtrip" :: rest => do
     -- the bare functions with the packet's direction passed to both
     let (p, r) ← runP (do let p ← pPacket; let r ← pRule; pEnd; pure (p, r)) rest
     pure (showPy (fun (c, d) => s!"{showABuf c} {showABuf d}") (do
-      let c ← compressD p r (some p.dir); let d ← decompressD c r (some p.dir); pure (c, d)))
+      let c ← compressD p r (some p.dir); let d ← decompressDG c r (some p.dir); pure (c, d)))
   | "mdecompressd" :: rest => do
     let (rs, s, d) ← runP (do let rs ← pRules; let s ← pABuf; let d ← pDir; pEnd; pure (rs, s, d)) rest
-    pure (showPy showABuf (managerDecompress rs s (some d)))
+    pure (showPy showABuf (managerDecompressG rs s (some d)))
   | "fieldmatch" :: rest => do
     let (f, rf) ← runP (do let f ← pField; let rf ← pRField; pEnd; pure (f, rf)) rest
     pure (showPy (fun (b : Bool) => toString b) (fieldMatch f rf))
@@ -98,11 +98,11 @@ def schcOp (toks : List String) : Option String :=
     pure (showPy showABuf (managerCompressPacket rs p d st))
   | "mdecompress" :: rest => do
     let (rs, s) ← runP (do let rs ← pRules; let s ← pABuf; pEnd; pure (rs, s)) rest
-    pure (showPy showABuf (managerDecompress rs s))
+    pure (showPy showABuf (managerDecompressG rs s))
   | "mroundtrip" :: rest => do
     let (pid, rs, pk, d, st) ← runP (do let pid ← pId; let rs ← pRules; let pk ← pABuf; let d ← pDir; let st ← pStrategy; pEnd; pure (pid, rs, pk, d, st)) rest
     pure (showPy (fun (c, d) => s!"{showABuf c} {showABuf d}") (do
-      let ps ← factory pid; let c ← managerCompress ps rs pk d st; let dd ← managerDecompress rs c (some d); pure (c, dd)))
+      let ps ← factory pid; let c ← managerCompress ps rs pk d st; let dd ← managerDecompressG rs c (some d); pure (c, dd)))
   | "umcompress" :: rest => do
     let (spec, rs, pk, d, st) ← runP (do let spec ← tok; let rs ← pRules; let pk ← pABuf; let d ← pDir; let st ← pStrategy; pEnd; pure (spec, rs, pk, d, st)) rest
     -- `id=<registry id>`: `ContextManager(context, parser=<str>)`, the parser comes from `factory`
@@ -120,7 +120,7 @@ def schcOp (toks : List String) : Option String :=
       let p := match d with | some x => { p0 with dir := x } | none => p0
       let r := recipeRule p.fields recipe rid
       let c ← compressD p r d
-      let dd ← decompressU c r (some ps) d
+      let dd ← guardRules [r] (decompressU c r (some ps) d)
       pure (c, dd)))
   | "mo" :: name :: rest => do
     -- the matching-operator functions of matching/operators.py called directly
@@ -150,10 +150,10 @@ def schcOp (toks : List String) : Option String :=
     pure (showPy showABuf (frontCompress cs pk ifc))
   | "fdecompress" :: rest => do
     let (cs, pk, ifc) ← runP (do let n ← pNat; let cs ← pRep n pContext; let pk ← pABuf; let ifc ← pId; pEnd; pure (cs, pk, ifc)) rest
-    pure (showPy showABuf (frontDecompress cs pk ifc))
+    pure (showPy showABuf (frontDecompressG cs pk ifc))
   | "froundtrip" :: rest => do
     let (cs, pk, ifc) ← runP (do let n ← pNat; let cs ← pRep n pContext; let pk ← pABuf; let ifc ← pId; pEnd; pure (cs, pk, ifc)) rest
-    pure (showPy (fun (c, d) => s!"{showABuf c} {showABuf d}") (do let c ← frontCompress cs pk ifc; let d ← frontDecompress cs c ifc; pure (c, d)))
+    pure (showPy (fun (c, d) => s!"{showABuf c} {showABuf d}") (do let c ← frontCompress cs pk ifc; let d ← frontDecompressG cs c ifc; pure (c, d)))
   | _ => none
 
 def pMode : P CoapMode := do
